@@ -96,7 +96,7 @@ func TestPropTokenHashes(t *testing.T) {
 	if err := influxdb2.RegisterDecoder(full); err != nil {
 		t.Fatal(err)
 	}
-	rec.Check(t, 6000, 200000, func(t *rapid.T) {
+	rec.Check(t, 6000, 60000, func(t *rapid.T) {
 		v := rapid.SampledFrom(influxdb2.AllVariants).Draw(t, "variant")
 		tok := genToken(t, "tok")
 		other, okind := deriveOther(t, tok)
